@@ -13,11 +13,6 @@ Arguments N.modulo : simpl never. Arguments N.sub : simpl never. Arguments N.eqb
 
 (* ================= 1. what an operation does not touch ================= *)
 
-Definition flags_same (s s' : server) : Prop :=
-  sv_running s' = sv_running s /\ sv_last_running s' = sv_last_running s /\ sv_dirty s' = sv_dirty s /\
-  sv_tick s' = sv_tick s /\ sv_now s' = sv_now s /\ sv_last_run s' = sv_last_run s /\
-  (sv_running s = false -> sv_removal_buf s' = sv_removal_buf s).
-
 Lemma flags_same_refl s : flags_same s s.
 Proof. unfold flags_same. tauto. Qed.
 
